@@ -48,6 +48,10 @@ func signalScenarios() []binScenario {
 		// two names that differ in letter case only: the second handler of "one" file is refused - and released, nothing else
 		{Name: "casecreate", Tables: map[string]string{"f1.csv": rowsCSV(3, 0)},
 			SQL: "CREATE TABLE `F1.csv` AS SELECT * FROM `f1.csv`;\n"},
+		// a table whose name is so long that its lock file can be created and its read-lock file cannot (255 bytes per name):
+		// the read fails with an I/O error - and leaves nothing
+		{Name: "longname", Tables: map[string]string{"f1.csv": rowsCSV(3, 0), strings.Repeat("\u6f22", 80) + ".csv": rowsCSV(3, 0)},
+			SQL: "UPDATE `f1.csv` SET n = n + 1;\nSELECT COUNT(*) FROM `" + strings.Repeat("\u6f22", 80) + ".csv`;\n"},
 		{Name: "holder", Tables: map[string]string{"f1.csv": rowsCSV(3, 0)}, Holder: true,
 			SQL: "SELECT COUNT(*) FROM `f1.csv`;\n"},
 		{Name: "holderupd", Tables: map[string]string{"f1.csv": rowsCSV(3, 0), "f2.csv": rowsCSV(3, 0)}, Holder: true,
@@ -111,7 +115,15 @@ func obsLinesForBin(sc binScenario, points []pointRec, snap map[string]string) [
 			}
 		}
 	}
-	lines = append(lines, core.JSON(map[string]interface{}{"a": "end", "dir": dirProjection2(snap, []string{"f1", "f2"}, nil), "readonly": sc.ReadOnly, "unchanged": unchanged}))
+	// control files of tables other than f1 / f2 (whatever their names): none may stay either
+	stray := 0
+	for n := range snap {
+		if strings.HasPrefix(n, ".") && (strings.HasSuffix(n, ".lock") || strings.HasSuffix(n, ".rlock") || strings.HasSuffix(n, ".temp")) &&
+			!strings.HasPrefix(n, ".f1.csv.") && !strings.HasPrefix(n, ".f2.csv.") {
+			stray++
+		}
+	}
+	lines = append(lines, core.JSON(map[string]interface{}{"a": "end", "dir": dirProjection2(snap, []string{"f1", "f2"}, nil), "readonly": sc.ReadOnly, "unchanged": unchanged, "stray": stray}))
 	return lines
 }
 
